@@ -497,11 +497,11 @@ func Milenage_check(opc, k, sqn, _rand, autn, ik, ck, res []uint8, res_len *uint
 func os_memcmp(a, b []uint8, num int) int {
 	for i := 0; i < num; i++ {
 		if a[i] < b[i] {
-			return -i
+			return -1
 		}
 
 		if a[i] > b[i] {
-			return i
+			return 1
 		}
 	}
 
